@@ -341,7 +341,11 @@ _PARAMS = ("p{i}", "p{i}=d{i}", "p{i}: T{i}", "p{i}: T{i} = d{i}", "/", "*", "*v
 
 def parameters(n):
     m = min(n, 4) if n >= 4 else 3
-    for pat in _seqs(_PARAMS, 0, m):
+    plain = ("p{i}", "p{i}=d{i}", "/", "*", "*v{i}", "**w{i}")
+    pats = list(_seqs(_PARAMS, 0, m))
+    if n < 4:
+        pats += list(_seqs(plain, 4, 4))  # length 4 over the un-annotated alphabet also in the quick tier
+    for pat in pats:
         if pat and pat[0] == "/":
             continue
         if sum(1 for p in pat if p in ("/",)) > 1 or sum(1 for p in pat if p.startswith("*") and not p.startswith("**")) > 1:
@@ -354,10 +358,11 @@ def parameters(n):
             yield f"def f({body}) -> R:\n    pass\n"
         if ":" not in body:
             yield f"lambda {body}: r\n" if body else "lambda: r\n"
-            if len(pat) <= 2 and body:
+            if body:
                 yield f"lambda {body},: r\n"
-        if len(pat) <= 2 and body:
+        if body:
             yield f"def f({body},):\n    pass\n"
+        if len(pat) <= 2 and body:
             yield f"async def f({body}):\n    pass\n"
 
 
@@ -392,7 +397,7 @@ def displays(n):
             yield f"x = ({body})\n" if len(pat) > 1 else f"x = [{body}]\n"
             yield f"for t in [{body}]:\n    pass\n"
             yield f"return [{body}]\n"
-    for pat in _seqs(("v{i}", "(v{i}, w{i})", "[v{i}]", "{{v{i}}}", "{{v{i}: w{i}}}", "()"), 2, 3 if n >= 4 else 2):
+    for pat in _seqs(("v{i}", "(v{i}, w{i})", "[v{i}]", "{{v{i}}}", "{{v{i}: w{i}}}", "()", "(v{i},)", "[]", "(v{i}, w{i}, u{i})", "[v{i}, w{i}]"), 1, 3 if n >= 4 else 2):
         body = ", ".join(p.format(i=i) for i, p in enumerate(pat))
         yield f"[{body}]\n"
         yield f"({body})\n"
